@@ -18,7 +18,7 @@ func init() {
 			"the time bounds of a memtable chunk, which prune time-bounded reads, are maintained for every appended row (late rows included); NOT decided: that the contents equal the model map for every history (value-level), column-wise replace arithmetic, cursor paging.",
 		Assumptions: commonAssumptions,
 		Technique:   "static analysis: predicate truth-table equivalence over normalised comparisons, argument-role tables by canonical definitions, must-precede cuts on go/cfg",
-		Rules:       "C02.R1 R2 R3 R4 R5 R6 R7 R8 R9",
+		Rules:       "C02.R1 R2 R3 R4 R5 R6 R7 R8 R9 R10 R11",
 	}
 }
 
@@ -288,6 +288,66 @@ func c02(c *an.Ctx) {
 				}
 			}
 			r.Floor(2, "whole-record hand-outs in mergeData")
+		}
+	}
+	// ---------------------------------------------------------------- R10
+	{
+		// The ordered file list is sorted by file SEQUENCE; the files are time-ordered per series only,
+		// their whole-file time ranges are not monotone (a later file can hold a new series' older,
+		// back-filled rows).  Selecting the files of a time-bounded read therefore looks at every file —
+		// a `break` at the first file beyond the range hides the later file's rows.
+		const I = "engine/immutable"
+		r := c.Rule("C02.R10", "K-LOOPSELECT", I+":(*MmsTables).getFiles — the selection of files for a time range examines every file of the list (no early break)")
+		if f := fn(r, I+":MmsTables.getFiles"); f != nil {
+			ref := f.Find(call(r, I+":TSSPFile.Ref"))
+			if ref.Len() == 0 && !r.Failed() {
+				r.Fail(f.Name+": selection", c.P.Pos(f.Body.Pos()), "getFiles no longer references the selected files")
+			}
+			for _, s := range ref.List {
+				if f.LoopBodyEntry(s) >= 0 {
+					f.LoopNoBreak(r, s, "every file of the list is examined")
+				}
+			}
+		}
+	}
+	// ---------------------------------------------------------------- R11
+	{
+		// MemTables.Values joins the rows of the active table and of the table being flushed.  When both
+		// have rows the join is the direction-aware merge (MergeRecord / MergeRecordDescend); handing out
+		// one side's record — alone or with the other side appended — is right only when the other side
+		// has nothing, otherwise a descending read gets an older block in front of a newer one.
+		r := c.Rule("C02.R11", "K-GUARD", MU+":(*MemTables).Values — one table's rows are returned as they are only when the other table has none; otherwise the result comes out of the merge primitives")
+		if f := fn(r, MU+":MemTables.Values"); f != nil {
+			side := func(e ast.Expr) string {
+				cs := f.Canon(e)
+				switch {
+				case strings.Contains(cs, "recv.activeTbl") && !strings.Contains(cs, "recv.snapshotTbl"):
+					return "active"
+				case strings.Contains(cs, "recv.snapshotTbl") && !strings.Contains(cs, "recv.activeTbl"):
+					return "snapshot"
+				}
+				return ""
+			}
+			n := 0
+			for _, s := range f.Find(an.AnyReturn()).List {
+				rs := s.Node.(*ast.ReturnStmt)
+				if len(rs.Results) != 1 || an.IsNilIdent(f.Info, rs.Results[0]) {
+					continue
+				}
+				sd := side(rs.Results[0])
+				if sd == "" {
+					continue // the merged record
+				}
+				n++
+				other := "recv.snapshotTbl"
+				if sd == "snapshot" {
+					other = "recv.activeTbl"
+				}
+				one := &an.Sites{F: f, Desc: "return of the " + sd + " table's record", List: []an.Site{s}}
+				f.Guarded(r, one, "the "+sd+" table's record is the result only when the other table has no rows", an.AtomLike(`^(nil==.*`+regexp.QuoteMeta(other)+`.*|.*`+regexp.QuoteMeta(other)+`.*==nil)$`, true))
+			}
+			r.AddSites(n)
+			r.Floor(2, "single-side returns of MemTables.Values")
 		}
 	}
 	// ---------------------------------------------------------------- R4
